@@ -22,6 +22,7 @@ Post(p) ==
     /\ final' = p.final
     /\ \A h \in HostSet : pool'[h] = p.pool[h]
     /\ timer' = p.timer
+    /\ rid' = p.rid
 
 Req(h, kind) == CHOOSE r \in srv : r.h = h /\ r.kind = kind
 
